@@ -32,6 +32,13 @@ type checker struct {
 	t        *rapid.T
 	seenEv   map[int]int // per node: events already checked
 	violated bool
+	locks    map[int]lockRec // per node: the lock its RoundState showed after the previous input
+}
+
+type lockRec struct {
+	h  uint64
+	r  int
+	id string
 }
 
 func (c *checker) fail(key, f string, a ...interface{}) {
@@ -148,6 +155,29 @@ func (c *checker) check() {
 			}
 		}
 	}
+	// (5) RoundState after every input: within a height a lock is only given up (or replaced by a lock on another block) once
+	// the node has admitted > 2/3 prevotes for another value in a round after the lock round and not after its current round
+	for _, nd := range c.n.Nodes {
+		if nd.Crashed != nil {
+			continue
+		}
+		rs := nd.CS.GetRoundState()
+		cur := lockRec{h: rs.Height, r: rs.LockedRound}
+		if rs.LockedBlock != nil && rs.LockedBlockParts != nil {
+			cur.id = types.BlockID{Hash: rs.LockedBlock.Hash(), PartsHeader: rs.LockedBlockParts.Header()}.Key()
+		}
+		if c.locks == nil {
+			c.locks = map[int]lockRec{}
+		}
+		prev, had := c.locks[nd.Idx]
+		c.locks[nd.Idx] = cur
+		if had && prev.id != "" && prev.h == cur.h && cur.id != prev.id {
+			if !c.polkaForOther(nd.Events, len(nd.Events), cur.h, prev.r, rs.Round, prev.id) {
+				c.fail("discipline:lock-released-without-later-polka", "node %d was locked on a block since h=%d r=%d and is no longer (now in round %d, locked round %d) without having admitted > 2/3 prevotes for another value in a round in (%d, %d]", nd.Idx, prev.h, prev.r, rs.Round, rs.LockedRound, prev.r, rs.Round)
+				return
+			}
+		}
+	}
 	// commits are justified: the seen commit holds > 2/3 valid precommits for exactly that block in one round
 	for _, nd := range c.n.Nodes {
 		if nd.Script == nil {
@@ -247,7 +277,7 @@ func runSchedule(t *rapid.T) {
 		n.Start(nd)
 	}
 	byzIdx := consim.SortedKeys(byz)
-	steps := rapid.IntRange(40, 400).Draw(t, "steps")
+	steps := rapid.IntRange(60, 1500).Draw(t, "steps")
 	maxHeights := uint64(rapid.IntRange(1, 3).Draw(t, "heights"))
 	staleFired, equivs, skips, dups, drops, byzProps := 0, 0, 0, 0, 0, 0
 	seenIDs := []types.BlockID{{}}
@@ -262,6 +292,53 @@ func runSchedule(t *rapid.T) {
 		}
 	}
 	poolSeen := 0
+	// Targeted delay: a node can have a whole class of messages (the proposal, the prevotes or the precommits of one round)
+	// held back until a later, generated moment.  This is what produces locks in rounds >= 1, polkas that complete after the
+	// node has moved on, and proposals that arrive after the votes for them.
+	classOf := func(m consensus.ConsensusMessage) string {
+		switch v := m.(type) {
+		case *consensus.VoteMessage:
+			if v.Vote != nil {
+				return fmt.Sprintf("votes h=%d r=%d type=%d", v.Vote.Height, v.Vote.Round, v.Vote.Type)
+			}
+		case *consensus.ProposalMessage:
+			if v.Proposal != nil {
+				return fmt.Sprintf("proposal h=%d r=%d", v.Proposal.Height, v.Proposal.Round)
+			}
+		case *consensus.BlockPartMessage:
+			return fmt.Sprintf("proposal h=%d r=%d", v.Height, v.Round)
+		}
+		return ""
+	}
+	held := map[int]map[string]bool{}
+	holds, releases := 0, 0
+	// some cases start with a generated delay plan: whole classes are held back from generated subsets of the nodes from
+	// the beginning (a starved round, a split vote), and the release actions below let them through at generated moments
+	if rapid.IntRange(0, 2).Draw(t, "delayplan") != 0 {
+		// every class gets its own density, so a class is typically withheld from nobody, from a few nodes, or from (almost)
+		// everybody: a round whose proposal reaches nobody ends in a nil polka, a round whose precommits reach nobody ends
+		// with locks but without a commit, and the votes of such rounds arrive in later rounds
+		for h := 1; h <= 2; h++ {
+			for r := 0; r <= 2; r++ {
+				for _, cl := range []string{fmt.Sprintf("proposal h=%d r=%d", h, r), fmt.Sprintf("votes h=%d r=%d type=1", h, r), fmt.Sprintf("votes h=%d r=%d type=2", h, r)} {
+					density := rapid.SampledFrom([]int{0, 0, 0, 25, 60, 100}).Draw(t, "density")
+					if density == 0 {
+						continue
+					}
+					for _, nd := range n.Nodes {
+						if rapid.IntRange(0, 99).Draw(t, "hold") < density {
+							if held[nd.Idx] == nil {
+								held[nd.Idx] = map[string]bool{}
+							}
+							held[nd.Idx][cl] = true
+							holds++
+						}
+					}
+				}
+			}
+		}
+		vstat.Label("delay_plan")
+	}
 	for s := 0; s < steps && !c.violated; s++ {
 		notePool(poolSeen)
 		poolSeen = len(n.Pool)
@@ -281,10 +358,10 @@ func runSchedule(t *rapid.T) {
 		nd := live[rapid.IntRange(0, len(live)-1).Draw(t, "node")]
 		act := rapid.IntRange(0, 99).Draw(t, "act")
 		switch {
-		case act < 62: // fair: the oldest message this node has not seen
+		case act < 57: // fair: the oldest message this node has not seen and that is not held back for it
 			k := -1
 			for i := range n.Pool {
-				if !nd.Delivered[i] {
+				if !nd.Delivered[i] && !held[nd.Idx][classOf(n.Pool[i].Msg)] {
 					k = i
 					break
 				}
@@ -294,6 +371,26 @@ func runSchedule(t *rapid.T) {
 				n.Logf("step %d: deliver #%d (%s, from %d) to node %d", s, k, consim.Describe(n.Pool[k].Msg), n.Pool[k].From, nd.Idx)
 			} else {
 				fireNewest(n, nd, s)
+			}
+		case act < 62: // hold back / release a class of messages for this node
+			hs := consim.SortedStrings(held[nd.Idx])
+			if len(hs) > 0 && rapid.IntRange(0, 2).Draw(t, "release") == 0 {
+				cl := hs[rapid.IntRange(0, len(hs)-1).Draw(t, "heldclass")]
+				delete(held[nd.Idx], cl)
+				releases++
+				n.Logf("step %d: node %d now receives the held-back %s", s, nd.Idx, cl)
+				break
+			}
+			for i := range n.Pool {
+				if cl := classOf(n.Pool[i].Msg); !nd.Delivered[i] && cl != "" && !held[nd.Idx][cl] {
+					if held[nd.Idx] == nil {
+						held[nd.Idx] = map[string]bool{}
+					}
+					held[nd.Idx][cl] = true
+					holds++
+					n.Logf("step %d: %s held back for node %d", s, cl, nd.Idx)
+					break
+				}
 			}
 		case act < 72: // any message, possibly again (duplication / replay of old messages) or out of order
 			if len(n.Pool) > 0 {
@@ -415,6 +512,21 @@ func runSchedule(t *rapid.T) {
 			}
 		}
 	}
+	// depth markers: a lock taken in a round >= 1, and a prevote of an EARLIER round admitted after such a lock (the situation
+	// in which "unlock only on a later proof-of-lock" differs from "unlock on any polka")
+	lateLock, staleAfterLock := 0, 0
+	for _, nd := range n.Nodes {
+		lockH, lockR := uint64(0), -1
+		for _, e := range nd.Events {
+			if e.Kind == "sign" && e.Vote != nil && e.Vote.Type == types.VoteTypePrecommit && !e.Vote.BlockID.IsZero() && e.Vote.Round >= 1 {
+				lockH, lockR = e.Vote.Height, e.Vote.Round
+				lateLock++
+			}
+			if e.Kind == "ack" && e.Vote != nil && e.Vote.Type == types.VoteTypePrevote && lockR >= 1 && e.Vote.Height == lockH && e.Vote.Round < lockR {
+				staleAfterLock++
+			}
+		}
+	}
 	crashed := 0
 	for _, nd := range n.Nodes {
 		if nd.Crashed != nil {
@@ -435,13 +547,17 @@ func runSchedule(t *rapid.T) {
 	lab("stale_timeout_fired", staleFired > 0)
 	lab("duplicates", dups > 0)
 	lab("drops", drops > 0)
+	lab("lock_in_round_ge_1", lateLock > 0)
+	lab("earlier_round_prevote_admitted_after_later_lock", staleAfterLock > 0)
+	lab("class_held_back", holds > 0)
+	lab("held_class_released_later", releases > 0)
 	lab("correct_node_crashed", crashed > 0)
 	vstat.Label(fmt.Sprintf("byz_%d_of_%d", len(byz), nv))
 	if crashed > 0 {
 		// a correct node that panics is treated as crashed here (safety must hold anyway); the panic itself is C16's business
 		vstat.Note("a correct node panicked in a C01 schedule: " + fmt.Sprint(n.Nodes[0].Crashed))
 	}
-	if committed > 0 && (laterRound > 0 || locks > 0 || equivs > 0 || skips > 0 || staleFired > 0 || byzProps > 0) {
+	if committed > 0 && (laterRound > 0 || locks > 0 || equivs > 0 || skips > 0 || staleFired > 0 || byzProps > 0 || holds > 0) {
 		vstat.NonTrivial(strings.Join(n.Trace, "|"))
 		if vstat.WantSample() {
 			tr := n.Trace
